@@ -180,22 +180,31 @@ def worker(job):
             return "%s: %s" % bad[0]
         return None
 
+    failing = [None]          # the scenario that failed INCLUDING the injected crash / fault / interruption: that is what a replay needs
+
     def runfn(sc, stats_):
         res = r.run(sc)
         v = record(sc, res)
         if v:
+            failing[0] = sc
             return v
         if sweep and sc["mode"]["kind"] == "none":
-            return sweep_modes(r, sc, sweep, record)
+            out = sweep_modes(r, sc, sweep, record)
+            if out:
+                failing[0] = out[1]
+                return out[0]
         return None
+    nomode = lambda x: sc_key(dict(x, mode={"kind": "none"}))
     try:
         for sc in fixed:
             v = runfn(sc, stats)
             if v:
-                stats.violations.append((v, sc))
+                stats.violations.append((v, failing[0] if failing[0] is not None else sc))
                 return stats
         if nex:
             vlib.hyp_search(scenario_strategy(profile), runfn, nex, seed, stats)
+            stats.violations = [(m, failing[0] if failing[0] is not None and isinstance(s_, dict) and nomode(failing[0]) == nomode(s_) else s_)
+                                for m, s_ in stats.violations]
     finally:
         r.close()
     return stats
@@ -261,7 +270,7 @@ def sweep_modes(r, sc, sweep, record):
         # under an injected fault or crash only the clauses named in sweep["tags"] are judged (default: the property's own tag)
         v = record(sc2, res, tuple(sweep["tags"])) if sweep.get("tags") else record(sc2, res)
         if v:
-            return v + " | mode=%s" % json.dumps(mode)
+            return v + " | mode=%s" % json.dumps(mode), sc2
     return None
 
 
